@@ -134,6 +134,7 @@ pub fn case(tape: &[u32]) -> CaseOutcome {
     cfg.risk = 0;
     cfg.prints = false;
     cfg.max_stanzas = 5;
+    cfg.edge_idiom = false;
     let cross = t.chance(1, 6);
     let program = if cross {
         let (prog, fault_id, kind) = cross_match_scenario(&mut gt);
@@ -300,7 +301,8 @@ pub fn case(tape: &[u32]) -> CaseOutcome {
             if ctxs.len() == 2 {
                 let a = (ctxs[0].statement_location.row, ctxs[0].statement_location.column);
                 let b = (ctxs[1].statement_location.row, ctxs[1].statement_location.column);
-                if a == b && matches!(program.gen.fault, Some("attr-conflict") | Some("edge-attr-conflict")) {
+                let one_statement = matches!(program.gen.fault_pair, Some((x, y)) if x == y);
+                if a == b && !one_statement && matches!(program.gen.fault, Some("attr-conflict") | Some("edge-attr-conflict")) {
                     return CaseOutcome::Fail(Failure::new("C20:lazy:conflict-names-same-statement-twice", format!("both contexts of the conflict cite the same statement: {}", rendered), d(json!({}))));
                 }
                 // one statement in conflict with itself on two matches: both matches are named
